@@ -232,6 +232,9 @@ class SchemaDocGen:
             else:
                 sel = self.selection(rt, 0, names)
             name = None if (nops == 1 and r.chance(1, 6)) else "Op%d" % i
+            # operation names and fragment names are separate namespaces: one operation may be called like a fragment of the document
+            if name is not None and i == 0 and names and r.chance(1, 4):
+                name = r.choice(names)
             ops.append(G.op(name, sel, ot, [self.vars[k] for k in sorted(self.vars)], []))
         return {"defs": ops + defs}
 
